@@ -9,7 +9,9 @@ from .stmt import (
 from .expr import Type, Expr, Lvalue, NumericLiteral, FuncCall
 from .program import Label, LineNo
 from .codegen import CodeGen
-from .exceptions import ErrorCode as EC, InternalError, CompileError
+from .exceptions import (
+    ErrorCode as EC, InternalError, CompileError, EvalError,
+)
 from .parser import parse_string
 from .evalctx import EvaluationContext, Routine
 
@@ -563,6 +565,13 @@ class Pass2(CompilePass):
             raise CompileError(
                 EC.INVALID_CONSTANT,
                 'Constant expression cannot be evaluated',
+                node=node.value)
+        except EvalError:
+            # an operator applied to operands of the wrong kind
+            # (CONST c = "x" + 1)
+            raise CompileError(
+                EC.TYPE_MISMATCH,
+                'Type mismatch in constant expression',
                 node=node.value)
 
         if node.parent_routine == self.compilation.main_routine:
